@@ -9,6 +9,8 @@ from ..model import MP, arr_map, first_diff
 
 ID = "C01"
 BUDGET = {"quick": 800, "thorough": 2000}
+TECHNIQUE = 'Hypothesis expression-tree generation vs exact polynomial model + ring-law metamorphic relations'
+LEVEL_TEXT = 'Every node of generated expression trees (depth <= 4, mixed operand kinds, broadcast families, equal/overlapping/disjoint names) is compared with an independent exact model; ring laws are metamorphic relations on the same leaves.'
 RULE = (
     "Hypothesis-generated expression trees of depth <= 4 over + - unary- unary+ * ** "
     "(scalar exponents 0-5 and integer array exponents) whose leaves come from one "
